@@ -84,6 +84,9 @@ def gen(rng, tier):
     request = rng.sample([c['name'] for c in cols], k)
     if any(r > 100000 for f in files for r in f['rows']) and 'col0' not in request:
         request.insert(rng.randrange(len(request) + 1), 'col0')
+    if rng.random() < 0.15:
+        # a field may be requested more than once (-f id -f pos -f id): one record per request, in request order
+        request.insert(rng.randrange(len(request) + 1), rng.choice(request))
     fault = rng.choice([None, None, 'missing-file', 'missing-field'])
     f = {'kind': fault}
     if fault == 'missing-file':
@@ -199,6 +202,8 @@ def run(case):
             if not sink.closed:
                 violation(out, 'pipe-not-closed', site, 'EOF was not signalled')
             out['events'].append(['ok', len(paths), request, len(stream)])
+            if len(set(request)) < len(request):
+                bump(out['probes'], 'field-requested-twice')
             if any(a.size == 0 for p in paths for a in truth[p].values()):
                 bump(out['probes'], 'empty-column')
             if any(a.ndim > 1 for a in truth[paths[0]].values()):
